@@ -89,6 +89,10 @@ def witnesses():
         "utx/__init__.py": '"""utx"""\n',
         "utx/h.py": '"""h"""\n\n\n' + _CLS % ("H", "H") + '\n\n__all__ = ["H"]\n',
     }, ["ut"], [], {})
+    cafe = _tree("cafe", {
+        "cafe/__init__.py": '"""cafe"""\nfrom cafe.alpha import Café\n\n__all__ = ["Café"]\n',
+        "cafe/alpha.py": '"""alpha"""\n\n\n' + _CLS % ("Café", "Café") + '\n\n__all__ = ["Café"]\n',
+    }, ["cafe"], ["cafe.alpha"], {"cafe.alpha": ["Café"]})
     return [
         ("C20-src-init-overwrite", conf, _cfg("conf")),
         ("C20-init-above-output", mypkg, _cfg("mypkg", out_rel="out/gold")),
@@ -96,6 +100,7 @@ def witnesses():
         ("C20-blacklist-subpackage", mypkg, _cfg("mypkg", blacklist=["mypkg.sub"], recursive=True)),
         ("C20-blacklist-module-file", mypkg, _cfg("mypkg", blacklist=["mypkg.alpha"])),
         ("C20-root-escape", ut, _cfg("ut")),
+        ("C20-table-name-non-ascii", cafe, _cfg("cafe", emit=["sqlalchemy_table"])),
     ]
 
 
@@ -134,6 +139,25 @@ def corners():
             c = _cfg("exposed", out_rel="out/exposed_out", emit=[emit], sqlsub=True, recursive=True)
             res.append({"idx": -100 - len(res), "tree": tree, "pre": {"kind": "absent"},
                         "runs": [{"cfg": c, "dry": False}, {"cfg": c, "dry": False}, {"cfg": c, "dry": True}]})
+    # awkward but legal names exported through __all__: builtins / exceptions, soft keywords, keyword + underscore, leading
+    # underscore, digits, names differing only in case, a stdlib-named module — every working emit kind x recursive
+    nf = {
+        "names/__init__.py": '"""names"""\nfrom names.errors import TimeoutError, format, Config\n\n__all__ = ["TimeoutError", "format", "Config"]\n',
+        "names/errors.py": '"""errors"""\n\n\n' + _CLS % ("TimeoutError", "TimeoutError") + '\n\n' + _FN % ("format", "format") + '\n\n'
+                           + _CLS % ("Config", "Config") + '\n\n__all__ = ["TimeoutError", "format", "Config"]\n',
+        "names/kw/__init__.py": '"""kw"""\nfrom names.kw.types import match, class_, _Private, Alpha2Beta, config, type, id\n\n'
+                                '__all__ = ["match", "class_", "_Private", "Alpha2Beta", "config", "type", "id"]\n',
+        "names/kw/types.py": '"""types"""\n\n\n' + "\n\n".join([_FN % ("match", "match"), _CLS % ("class_", "class_"), _CLS % ("_Private", "_Private"),
+                                                                  _CLS % ("Alpha2Beta", "Alpha2Beta"), _FN % ("config", "config"),
+                                                                  _CLS % ("type", "type"), _FN % ("id", "id")])
+                             + '\n\n__all__ = ["match", "class_", "_Private", "Alpha2Beta", "config", "type", "id"]\n',
+    }
+    ntree = _tree("names", nf, ["names", "names.kw"], ["names.errors", "names.kw.types"],
+                  {"names.errors": ["TimeoutError", "format", "Config"], "names.kw.types": ["match", "class_", "_Private", "Alpha2Beta", "config", "type", "id"]})
+    for emit in ("sqlalchemy_table", "class", "function", "argparse", "sqlalchemy_hybrid"):
+        for recursive in (True, False):
+            res.append({"idx": -100 - len(res), "tree": ntree, "pre": {"kind": "absent"},
+                        "runs": [{"cfg": _cfg("names", out_rel="out/names_out", emit=[emit], recursive=recursive), "dry": False}]})
     return res
 
 
@@ -207,10 +231,57 @@ def check_generated_file(path: str):
             if any(isinstance(t, ast.Name) and t.id == "__all__" for t in tg) and isinstance(st.value, (ast.List, ast.Tuple)):
                 alls += [e.value for e in st.value.elts if isinstance(e, ast.Constant)]
     missing = [n for n in alls if n not in known]
-    return ("__all__ names undefined: %s" % missing) if missing else None
+    if not missing:
+        return None
+    # root-cause marker of the signature: what kind of name is exported without being bound
+    return "__all__ names undefined [%s]: %s (bound: %s)" % ("+".join(sorted({name_marker(n) for n in missing})), missing, sorted(known)[:8])
 
 
-def run_scenario(sc: dict) -> dict:
+def name_marker(n: str) -> str:
+    import builtins
+    import keyword
+
+    if not n.isascii():
+        return "non_ascii_name"
+    if keyword.iskeyword(n):
+        return "keyword_name"
+    if n in vars(builtins):
+        return "builtin_name"
+    return "plain_name"
+
+
+_SPEC_CACHE: dict = {}
+
+
+def foreign_imports(fs: dict, specs: list) -> list:
+    """module strings of `from … import` statements in the source tree that the tree itself cannot resolve but the
+    interpreter can (exmod ignores the import level, so `from .types import x` makes it read the *stdlib* `types`):
+    the model's find_spec table only covers the tree, so such a run is outside its domain."""
+    import importlib.util
+
+    table = {k for k, _ in specs}
+    res = set()
+    for f in fs["files"]:
+        if not f["path"].startswith(R.CANON + "/src/"):
+            continue
+        for imp in f["walk"]:
+            m = imp.get("module")
+            if not m or m in table:
+                continue
+            first = m.split(".")[0]
+            if first in table:
+                continue
+            if first not in _SPEC_CACHE:
+                try:
+                    _SPEC_CACHE[first] = importlib.util.find_spec(first) is not None
+                except (ValueError, ImportError, AttributeError):
+                    _SPEC_CACHE[first] = True  # cannot tell: treat as resolvable elsewhere
+            if _SPEC_CACHE[first]:
+                res.add(m)
+    return sorted(res)
+
+
+def run_scenario(sc: dict, timeout: float = 120.0) -> dict:
     """Materialise, run every step of the history on the real code, collect observations + model requests."""
     root = R.new_root()
     steps = []
@@ -229,6 +300,7 @@ def run_scenario(sc: dict) -> dict:
             out = os.path.join(root, cfg["out_rel"])
             fs = R.scan(root)
             specs = R.specs_and_packages(root, cfg["module"])
+            foreign = foreign_imports(fs, specs)
             req = {"op": "c20.trace",
                    "cfg": {"emit": cfg["emit"], "module": cfg["module"], "blacklist": cfg["blacklist"], "whitelist": cfg["whitelist"],
                            "out": R.CANON + "/" + cfg["out_rel"], "target": cfg["target"], "sqlsub": cfg["sqlsub"],
@@ -236,7 +308,7 @@ def run_scenario(sc: dict) -> dict:
                    "env": {"specs": specs, "packages": R.packages_for(root, cfg["module"], specs)}, "fs": fs}
             out_existed = os.path.isdir(out)
             before = R.snapshot(root)
-            res = R.run_forked(R.child_run, (root, cfg, dry), timeout=120)
+            res = R.run_forked(R.child_run, (root, cfg, dry), timeout=timeout)
             after = R.snapshot(root)
             if "events" not in res:
                 steps.append({"harness_error": res, "cfg": cfg, "dry": dry})
@@ -249,7 +321,7 @@ def run_scenario(sc: dict) -> dict:
                     if why:
                         gen_bad.append([rel, why])
             steps.append({
-                "cfg": cfg, "dry": dry, "req": req, "out_existed": out_existed,
+                "cfg": cfg, "dry": dry, "req": req, "out_existed": out_existed, "foreign": foreign,
                 "events": [[e[0], R.canon(e[1], root)] for e in res["events"]],
                 "prints": [R.canon(x, root) for x in res["prints"]],
                 "err": res["err"], "tb": R.canon(res.get("tb") or "", root)[-600:], "raised_in": res.get("raised_in"),
@@ -385,6 +457,8 @@ def compare(st: dict, m: dict):
     extra = [e for e in st["events"] if e[0] not in ("mkdir", "open-a", "open-w")]
     mt = [e for e in m["trace"] if e[0] != "print"]
     mp = [e[1] for e in m["trace"] if e[0] == "print"]
+    if st.get("foreign"):
+        return "outside-domain"
     if outside_domain(st) and not extra:
         # the model's trace must still begin with everything that was observed before the exception
         if obs == mt[: len(obs)] and st["prints"] == mp[: len(st["prints"])]:
@@ -445,11 +519,17 @@ def evaluate(chk: core.Check, scenarios: list, label: str):
     """run scenarios on the real code (parallel), the model on the same inputs, compare, apply the oracle"""
     with cf.ThreadPoolExecutor(core.NCPU) as ex:
         results = list(ex.map(run_scenario, scenarios))
+    # a child that did not answer within 120 s (machine under load) or died is not a verdict: the whole scenario is run
+    # again, alone, in a fresh temp root with a 600 s limit; only if that fails too the check stops with exit 2
+    for i, (sc, res) in enumerate(zip(scenarios, results)):
+        if any("harness_error" in st for st in res["steps"]):
+            chk.coverage["child_retries"] = chk.coverage.get("child_retries", 0) + 1
+            results[i] = run_scenario(sc, timeout=600.0)
     reqs, where = [], []
     for sc, res in zip(scenarios, results):
         for k, st in enumerate(res["steps"]):
             if "harness_error" in st:
-                raise core.HarnessError("exmod child did not answer: %s" % (st["harness_error"],))
+                raise core.HarnessError("exmod child did not answer twice (120 s in parallel, 600 s alone): %s" % (st["harness_error"],))
             reqs.append(st["req"])
             where.append((sc, k, st))
     model = core.model_batch(reqs, timeout=1800)
@@ -487,7 +567,8 @@ def evaluate(chk: core.Check, scenarios: list, label: str):
         if why == "outside-domain":
             cov["outside_domain"] = cov.get("outside_domain", 0) + 1
             d = cov.setdefault("outside_domain_kinds", {})
-            kd = "%s in %s" % (st["err"], (st.get("raised_in") or "").split("/cdd/")[-1])
+            kd = ("source imports a module outside the tree (import level ignored by exmod)" if st.get("foreign")
+                  else "%s in %s" % (st["err"], (st.get("raised_in") or "").split("/cdd/")[-1]))
             d[kd] = d.get(kd, 0) + 1
         elif why:
             n_dis += 1
